@@ -10,14 +10,33 @@ CFG = dict(
                        "Props.C11.read_committed_exact_history", "Props.C11.faithful_index_exists",
                        "Props.C11.faithfulIndex_perm", "Props.C11.visibleIso_mem", "Props.C11.visibleIso_uncommitted",
                        "Props.C11.step_window_iso", "Props.C11.control_never_delivered_but_advances",
-                       "Props.C11.read_uncommitted_all_data",
+                       "Props.C11.read_uncommitted_all_data", "Props.C11.pid_reuse_after_abort",
                        "Lemmas.C11.consume_spec", "Lemmas.C11.mem_sortAborted", "Lemmas.C11.index_agrees",
                        "Lemmas.C11.nextMarker_nextAbort", "Lemmas.C11.keeps_truth", "Lemmas.C11.resp_rc",
                        "Lemmas.C11.brokerIndex_faithful", "Lemmas.C03.parse_eq_walk", "Lemmas.C03.resp_core"],
-    n={"quick": 400, "thorough": 15000, "search": 800},
+    n={"quick": 400, "thorough": 8000, "search": 800},
     thorough_seeds=4,
     level="proof",
-    assumptions=[],
+    assumptions=[
+        "faithful broker as in C03 (FaithfulData) and a faithful aborted-transaction index (FaithfulIndex): it lists (producer id, first offset) of every aborted transaction of the log not finished before the asked offset and beginning at or below the end of the returned data; order, duplicates and additional later transactions are unconstrained; such an index exists for every log and fetch (theorem faithful_index_exists / brokerIndex_faithful)",
+        "well-formed transactional log: LogWF plus BaseWF (a batch's base offset lies above every earlier batch's last offset and not above its own)",
+        "the returned data contains no batch emptied by compaction and control batches carry a readable control record (hypotheses of FaithfulTxnData)",
+        "ground truth: a transactional data batch is hidden under ReadCommitted iff the first control batch of its producer after it in the log is an abort marker (undecided transactions count as visible; a faithful broker does not serve them to read-committed fetches)",
+        "Fetch.Max guard and int64 non-overflow as in C03; goroutine pipeline observed end-to-end only"],
     trusted_base=[],
 )
-CFG["manifest"] = dict(text="", note="", technique="")
+CFG["manifest"] = dict(
+    text="Proof: Lean theorems over ALL well-formed transactional logs (any number of producer ids, overlapping transactions, the same id aborting then committing, "
+         "non-transactional batches and legacy messages in between), every asked offset (also inside a transaction), every fetch boundary and every faithful aborted-transaction "
+         "index in any order: with ReadCommitted parseResponse hands over exactly the records of committed transactions and non-transactional data of the fetched range, no record "
+         "of an aborted transaction (read_committed_exact, _perm, _history: whole fetch histories incl. errors / throttling / partial data); at either isolation level no control "
+         "record is delivered and the next offset lies beyond every record of the response, markers included (control_never_delivered_but_advances); with ReadUncommitted all data "
+         "records are delivered whatever the transaction outcome (read_uncommitted_all_data). The abort filter is proved correct via an invariant of the sorted index / aborted-id set "
+         "(consume_spec, JInv) and the agreement of a faithful index with the log's ground truth (index_agrees). "
+         "Tie: shared parse model, bridge obligations of C03; the abort-filter loop (sort, break, map add / delete, continue) is tied by differential execution: generated "
+         "transactional logs, fetch boundaries at every position, shuffled / loose indexes, real FetchResponse encode -> decode -> parseResponse vs the compiled model, property oracle "
+         "with the generator's ground truth, end-to-end stream against MockBroker.",
+    note="Trusted: Lean kernel; harness/line protocol; translator + GoSem for the shared bridge (C03). Modelled not verified: broker behaviour (FaithfulData, FaithfulIndex), Go's "
+         "unstable sort.Slice (the model sorts stably; the theorems hold for every order of the index, equal first offsets are consumed in the same step). Not modelled: goroutines.",
+    technique="Lean 4 proof (invariants over the response walk, relational ground truth, omega) + differential correspondence + end-to-end observation",
+)
